@@ -169,8 +169,11 @@ def run(plan):
         # value (lambda+d)^(-1/p) is only determined where lambda+d is well
         # above it
         noise = 8 * d * 2.0 ** -24 * max(lmax, 1e-30)
-        keep_ok = float(np.min(w_[keep])) + lo >= 300 * noise
-        rest_ok = len(rest) == 0 or float(np.min(w_[rest])) + lo >= 300 * noise
+        keep_ok = float(np.min(w_[keep])) + lo >= 1000 * noise
+        rest_ok = len(rest) == 0 or float(np.min(w_[rest])) + lo >= 1000 * noise
+        used = ([float(np.min(w_[keep]))] if keep_ok else []) + (
+            [float(np.min(w_[rest]))] if rest_ok and len(rest) else [])
+        rel_noise = noise / (min(used) + lo) if used else 0.0
         V, _, inv, const, _, _ = ref.unpack(X, r)
         Vk = U[:, keep]
         if float(w_[0]) + lo <= noise:
@@ -182,7 +185,12 @@ def run(plan):
           continue
         # retained subspace (gap-conditioned)
         proj = float(np.max(np.abs(V @ V.T - Vk @ Vk.T)))
-        tol_p = 1e-3 + 64 * d * 2.0 ** -24 * max(lmax, 1e-30) / gap
+        # eigenvector sensitivity: (float32 eigh error ~ c n u lambda_max) / gap
+        tol_p = 1e-3 + 256 * d * 2.0 ** -24 * max(lmax, 1e-30) / gap
+        if tol_p > 0.02:
+          ctx.ev('packed_subspace', 'vacuous')
+          ctx.ev('packed_root', 'vacuous')
+          continue
         ctx.probe('packed_root_checked')
         okp = proj <= tol_p
         ctx.ev('packed_subspace', 'ok' if okp else 'violation', proj / tol_p)
@@ -234,7 +242,7 @@ def run(plan):
         if not keep_ok and not rest_ok:
           ctx.ev('packed_root', 'vacuous')
         else:
-          tol = 1e-3
+          tol = 2e-3 + 4.0 * rel_noise
           ok = best[0] <= tol
           ctx.ev('packed_root', 'ok' if ok else 'violation', best[0] / tol)
           if keep_ok and rest_ok:
